@@ -151,7 +151,7 @@ def replay(pid, case):
 
 def run(pid, tier, seed):
     t0 = time.time()
-    shards, n = (8, 150) if tier == "quick" else (16, 4000)
+    shards, n = (16, 250) if tier == "quick" else (16, 4000)
     camp = core.Campaign()
     for name, rc in core.regress_cases(pid):
         for k, what in replay(pid, rc["case"]):
